@@ -150,7 +150,7 @@ def obs_events(chk):
     rng = np.random.RandomState(1300 + chk.seed)
     batch = obs.Batch('ObsC13')
     reps = 30 if chk.tier == 'quick' else 300
-    sizes = [4, 6, 9, 16, 33, 64, 127, 128, 129, 200]
+    sizes = [4, 6, 9, 16, 33, 64, 127, 128, 129, 200, 257, 520, 1030]
     grid = [(N, c, None, None) for N in sizes for c in (False, True)]
     # orders on both sides of 16 / 32 (any periodic or size-dependent branch of the recursion), the largest
     # admissible order, and strongly predictable data (reflection coefficients of modulus close to 1)
